@@ -64,6 +64,12 @@ pub struct Profile {
     pub downgrade_pct: u32,
     pub poll_waits: Vec<u64>,
     pub extra_connack_props_pct: u32,
+    /// size requests so that the encoded packet lands within +-3 bytes of the broker's limit
+    pub near_mps: bool,
+    /// inject a Pending before every transport call (every call becomes a cancellation point)
+    pub all_pend: bool,
+    /// inbound publishes sized around the receive buffer (may exceed it)
+    pub inbound_near_rx: bool,
 }
 
 impl Default for Profile {
@@ -121,6 +127,9 @@ impl Default for Profile {
             downgrade_pct: 30,
             poll_waits: vec![0, 0, 1_000, 1_000_000, 20_000_000],
             extra_connack_props_pct: 15,
+            near_mps: false,
+            all_pend: false,
+            inbound_near_rx: false,
         }
     }
 }
@@ -257,11 +266,16 @@ pub struct Gen {
     was_live: bool,
     pub next_spid: u16,
     pub steps_left: usize,
+    /// sweep support: inject this fault into the n-th connection (0-based)
+    pub forced_fault: Option<(usize, FaultPlan)>,
+    /// sweep support: cancel the n-th emitted step (if cancel-safe) at its k-th Pending
+    pub forced_cancel: Option<(usize, usize)>,
+    emitted: usize,
 }
 
 impl Gen {
     pub fn new(seed: u64, p: Profile) -> Self {
-        Gen { rng: Rng::new(seed), p, tag: 0, conns: 0, dead_ops: 0, was_live: false, next_spid: 1, steps_left: 60 }
+        Gen { rng: Rng::new(seed), p, tag: 0, conns: 0, dead_ops: 0, was_live: false, next_spid: 1, steps_left: 60, forced_fault: None, forced_cancel: None, emitted: 0 }
     }
 
     fn cancel(&mut self) -> Option<usize> {
@@ -323,10 +337,20 @@ impl Gen {
             ConnackSpec::Normal { sp, reason: 0, props }
         };
         let hostile = rng.chance(p.hostile_io_pct, 100);
-        let policy = rand_policy(rng, hostile);
+        let mut policy = rand_policy(rng, hostile);
+        if p.all_pend {
+            policy.pend_write = Pend::Always;
+            policy.pend_flush = Pend::Always;
+            policy.pend_read = Pend::Always;
+        }
         let mut faults = Vec::new();
         if rng.chance(p.conn_fault_pct, 100) {
             faults.push(rand_fault(rng, 60));
+        }
+        if let Some((ord, f)) = self.forced_fault {
+            if ord + 1 == self.conns {
+                faults.push(f);
+            }
         }
         let broker = BrokerPolicy {
             acks: *rng.pick(&p.ack_modes),
@@ -348,11 +372,27 @@ impl Gen {
         let p = &self.p;
         let rng = &mut self.rng;
         let (props, ascii) = if rng.chance(p.props_pct, 100) { rand_publish_props(rng) } else { (vec![], false) };
-        let len = match rng.below(10) {
+        let mut len = match rng.below(10) {
             0 => 0,
             1 => p.payload_max,
             _ => rng.below(p.payload_max + 1),
         };
+        let topic = rand_topic(rng, p.topic_max);
+        if p.near_mps {
+            if let Some(m) = v.snap.maximum_packet_size.filter(|m| *m < 20_000) {
+                let body = 2 + topic.len() + if eff_qos > 0 { 2 } else { 0 } + crate::refcodec::props_encoded_len(&props);
+                let target = (m as i64 + rng.range(0, 6) as i64 - 3).max(2) as usize;
+                // total = 1 + varint(body + len) + body + len
+                let mut best = 0usize;
+                for l in 0..=target {
+                    let rl = body + l;
+                    if 1 + crate::refcodec::varint_len(rl as u32) + rl <= target {
+                        best = l;
+                    }
+                }
+                len = best;
+            }
+        }
         let cancel_at = if eff_qos > 0 || p.cancel_qos0 {
             rng.chance(p.cancel_pct, 100).then(|| 1 + rng.below(6))
         } else {
@@ -364,8 +404,9 @@ impl Gen {
             // one Correlation Data per PUBLISH: the application must not supply it twice
             props.retain(|p| !matches!(p, Prop::CorrelationData(_)));
         }
+        let correlate = if p.near_mps { None } else { correlate };
         PubSpec {
-            topic: rand_topic(rng, p.topic_max),
+            topic,
             payload: PayloadSpec::Fill { len, tag: self.tag, ascii },
             qos,
             retain: rng.chance(1, 5),
@@ -457,11 +498,15 @@ impl Gen {
             return None;
         }
         let room = rx - overhead;
-        let len = match rng.below(8) {
+        let mut len = match rng.below(8) {
             0 => room,
             1 => 0,
             _ => rng.below(room.min(self.p.payload_max) + 1),
         };
+        if self.p.inbound_near_rx && rng.chance(1, 2) {
+            // encoded size within rx-2 ..= rx+2
+            len = (room + 4 + rng.below(5)).saturating_sub(2 + 4);
+        }
         let pkt = SPacket::Publish {
             dup,
             qos,
@@ -471,7 +516,7 @@ impl Gen {
             props,
             payload: fill(self.tag | 0x8000_0000, len, ascii),
         };
-        if crate::refcodec::encode_server(&pkt).len() > rx {
+        if crate::refcodec::encode_server(&pkt).len() > rx && !self.p.inbound_near_rx {
             return None;
         }
         Some(pkt)
@@ -581,6 +626,29 @@ impl Gen {
 
 impl Driver for Gen {
     fn next(&mut self, v: &View<'_>) -> Option<Step> {
+        let mut s = self.next_inner(v)?;
+        let n = self.emitted;
+        self.emitted += 1;
+        if let Some((ord, at)) = self.forced_cancel {
+            if ord == n {
+                let eff0 = matches!(&s, Step::Publish(p) if p.qos == 0 || (v.log.cfg.downgrade && v.snap.max_qos == Some(0)));
+                match &mut s {
+                    Step::Publish(p) if !eff0 => p.cancel_at = Some(at),
+                    Step::Subscribe(p) => p.cancel_at = Some(at),
+                    Step::Unsubscribe(p) => p.cancel_at = Some(at),
+                    Step::Disconnect(p) => p.cancel_at = Some(at),
+                    Step::Connect(p) => p.cancel_at = Some(at),
+                    Step::Poll { cancel_at, .. } | Step::Recv { cancel_at, .. } | Step::Drive { cancel_at } => *cancel_at = Some(at),
+                    _ => {}
+                }
+            }
+        }
+        Some(s)
+    }
+}
+
+impl Gen {
+    fn next_inner(&mut self, v: &View<'_>) -> Option<Step> {
         if self.steps_left == 0 {
             return None;
         }
